@@ -32,7 +32,7 @@ ASSUMPTIONS = [
     'lifecycle hooks of the generated programs do not raise (that is C03)',
     'kill text of the future-cancel path is the literal plumpy uses ("Killed by future being cancelled")',
 ]
-EXPECTED_COUNTERS = ['probe:kill_while_pause_pending', 'probe:kill_from_listener', 'probe:kill_while_paused',
+EXPECTED_COUNTERS = ['kind:workchain', 'probe:kill_while_pause_pending', 'probe:kill_from_listener', 'probe:kill_while_paused',
                      'probe:kill_in_waiting_step', 'probe:cancel_future_live', 'probe:probe_kill_used']
 KINDS = ['pause', 'play', 'kill', 'resume']
 CANCEL_TEXT = 'Killed by future being cancelled'
@@ -75,16 +75,36 @@ def systematic(tier):
 
 
 def random_case(rng, tier):
-    program = programs.gen_process_program(rng, PROGRAM_CFG)
+    if rng.random() < 0.25:
+        program = common.gen_workchain_with_awaitables(rng)
+    else:
+        program = programs.gen_process_program(rng, PROGRAM_CFG)
     ticks, notify, _ = common.dry_run(program)
     kinds = KINDS + (['cancel'] if rng.random() < 0.2 else [])
+    if program.get('kind') == 'workchain':
+        kinds = ['pause', 'play', 'kill', 'kill', 'complete'] + (['cancel'] if rng.random() < 0.2 else [])
     max_actions = 4 if tier == 'quick' else 6
     schedule = common.gen_schedule(rng, kinds, max_actions, ticks, notify, must=['kill', 'kill', 'kill', 'cancel'])
+    for action in schedule:
+        if action['act'] == 'complete':
+            action.update(fut=rng.randrange(max(program.get('n_futures', 1), 1)), how='value', v='done')
     return {'program': program, 'schedule': schedule, 'opts': {}}
 
 
 def shrink(case):
-    return common.shrink_control(case)
+    if case['program'].get('kind') == 'workchain':
+        import copy
+        for i in range(len(case['schedule'])):
+            candidate = copy.deepcopy(case)
+            del candidate['schedule'][i]
+            yield candidate
+        for i, action in enumerate(case['schedule']):
+            if action.get('at', 0) > 0:
+                candidate = copy.deepcopy(case)
+                candidate['schedule'][i]['at'] = action['at'] - 1
+                yield candidate
+        return
+    yield from common.shrink_control(case)
 
 
 def run(case):
@@ -116,7 +136,10 @@ def _kill_context_signature(engine, event_index):
 def _oracle(engine, result, case):
     world, proc = engine.world, engine.proc
     events = world.events
-    program_kill_msgs = {s['ret'].get('msg') for s in case['program']['steps'] if s['ret']['t'] == 'kill'}
+    is_wc = case['program'].get('kind') == 'workchain'
+    program_kill_msgs = set() if is_wc else {s['ret'].get('msg') for s in case['program']['steps'] if s['ret']['t'] == 'kill'}
+    if is_wc:
+        result.counters['kind:workchain'] += 1
 
     # -- probes (reach) -------------------------------------------------------------------------
     for record in engine.records:
@@ -153,7 +176,7 @@ def _oracle(engine, result, case):
     if first_kill is not None:
         index, text = first_kill
         signature_ctx = _kill_context_signature(engine, index)
-        later_steps = [e for e in events[index + 1:] if e[0] == 'step']
+        later_steps = [e for e in events[index + 1:] if e[0] in ('step', 'wstep')]
         if later_steps:
             result.violate('step_after_kill', signature_ctx,
                            f'step {later_steps[0][2]} was entered after a kill had been requested on a live process')
@@ -171,6 +194,16 @@ def _oracle(engine, result, case):
             allowed = {text} | program_kill_msgs
             if recorded not in allowed:
                 result.violate('kill_text', signature_ctx, f'killed_msg text {recorded!r} not in {allowed!r}')
+
+    # -- (5) cancelling the process's future while it is live has the same effect as kill() --------------------
+    for record in engine.records:
+        if record.action['act'] == 'cancel' and record.pre_live and record.result is True:
+            raised = any(e[0] == 'raise' for e in events)
+            if not (final_state == 'killed' or (final_state == 'excepted' and raised)):
+                result.violate('cancel_not_killed', f'cancel@{record.context}/{record.where}|{final_state}',
+                               f'the process future was cancelled while the process was live ({record.context}) but the '
+                               f'process ended {final_state} ({proc.exception()!r})')
+                break
 
     # -- (3) returned value is True exactly when the process ended KILLED -------------------------
     ended_killed = final_state == 'killed'
